@@ -56,6 +56,18 @@ CHECKS = {
         design_ref='6/C02',
         note='Finite exploration; new inputs may reach leak sites not yet listed (they are then reported as violations).',
         technique='TLA+ outcome contract evaluated by TLC on traces of mutated inputs'),
+    'C13': dict(
+        category='model_checking',
+        text='Heap.tla models objects, buffers and class defaults as memory cells with a ghost "expected value" per object; '
+             'TLC checks Independent / Deterministic / FreshDefaults over all histories of <= 6 actions and rejects the three '
+             'as-coded defect shapes (shared default, aliased input buffer, observer that does not undo a temporary edit). '
+             'Behaviours of Heap.tla generated by TLC (-simulate) plus fixed ones are replayed on real objects of every class '
+             'with an accepted corpus input (construct with defaults, edit every mutable part in turn, call every observer, '
+             'parse from a bytearray and overwrite it); Trace_Heap checks non-interference at every step.',
+        design_ref='6/C13',
+        note='Trusted: projection digests as object state; random/time based defaults are masked when comparing a new '
+             'object with the pristine default; edits reach containers and scalar attributes within 4 levels.',
+        technique='TLA+ heap model checked by TLC; replay of TLC-generated histories on real objects; trace validation'),
 }
 
 NOT_APPLICABLE = {}
